@@ -180,6 +180,9 @@ func cmdMutate(args []string) int {
 	par := fs.Int("j", 10, "mutants verified in parallel")
 	opsF := fs.String("ops", "", "comma separated operators (default: all)")
 	limit := fs.Int("limit", 0, "stop after this many mutants (0: no limit)")
+	propF := fs.String("property", "", "only obligations on the expectation list of this property's check")
+	stride := fs.Int("stride", 1, "take every n-th mutant ...")
+	phase := fs.Int("phase", 0, "... starting with this one (a sample that changes with the seed)")
 	anyOb := fs.Bool("any", false, "count every obligation of the unit, not only those on the expectation lists of the checks (contract development)")
 	fs.Parse(args)
 	ops := map[string]bool{}
@@ -189,6 +192,20 @@ func cmdMutate(args []string) int {
 		}
 	}
 	expected := expectedNames()
+	if *propF != "" {
+		spec, err := loadSpec(*propF)
+		if err != nil {
+			fmt.Fprintln(os.Stderr, err)
+			return 2
+		}
+		only := map[string]bool{}
+		for _, n := range spec.Expect {
+			if expected[n] {
+				only[n] = true
+			}
+		}
+		expected = only
+	}
 	var all []srcMutant
 	baseline := map[string]map[string]string{} // unit key -> agg name -> status
 	for _, mod := range []string{".", "v2"} {
@@ -267,6 +284,15 @@ func cmdMutate(args []string) int {
 				}
 			}
 		}
+	}
+	if *stride > 1 {
+		var pick []srcMutant
+		for i, m := range all {
+			if i%*stride == *phase%*stride {
+				pick = append(pick, m)
+			}
+		}
+		all = pick
 	}
 	if *limit > 0 && len(all) > *limit {
 		all = all[:*limit]
@@ -357,7 +383,7 @@ func cmdMutate(args []string) int {
 	if *outF != "" {
 		os.WriteFile(*outF, []byte(outb.String()), 0o644)
 	}
-	if *fileF == "" && *funcF == "" && *limit == 0 && !*anyOb && len(ops) == 0 {
+	if *fileF == "" && *funcF == "" && *limit == 0 && !*anyOb && len(ops) == 0 && *propF == "" && *stride <= 1 {
 		// a complete sweep: keep its summary next to the triage file
 		byOp := map[string]map[string]int{}
 		var open []map[string]interface{}
